@@ -30,6 +30,7 @@ type fieldAccess struct {
 	field  string // "" = whole struct copy
 	write  bool
 	locked bool
+	atomic bool // performed by a sync/atomic function: conflicts only with accesses that are not
 	how    string
 }
 
@@ -176,6 +177,23 @@ func collectFieldAccesses(p *Program, fn *ssa.Function, rp map[*ssa.Function]boo
 				}
 				ex, _ := heldLock(fn, in)
 				out = append(out, fieldAccess{fn: fn, pos: x.Pos(), typ: n, field: f, write: true, locked: ex, how: "store"})
+			case *ssa.Call:
+				// sync/atomic functions on the address of a field: an atomic write (Store, Add, Swap,
+				// CompareAndSwap, And, Or) or read (Load). Two atomic accesses never race; an atomic write
+				// and a plain load - or the whole-struct copy of a value-receiver call - do.
+				cf := x.Call.StaticCallee()
+				if cf == nil || cf.Pkg == nil || cf.Pkg.Pkg.Path() != "sync/atomic" || cf.Signature.Recv() != nil || len(x.Call.Args) == 0 {
+					continue
+				}
+				n, f, base, ok := fieldOf(x.Call.Args[0])
+				if !ok {
+					continue
+				}
+				if k, _, _ := addrRoot(base, 10); k == rootLocal {
+					continue
+				}
+				isLoad := strings.HasPrefix(cf.Name(), "Load")
+				out = append(out, fieldAccess{fn: fn, pos: x.Pos(), typ: n, field: f, write: !isLoad, atomic: true, how: "sync/atomic." + cf.Name()})
 			case *ssa.UnOp:
 				if x.Op != token.MUL {
 					continue
@@ -382,6 +400,9 @@ func ruleGoField(p *Program, r *Result) {
 					continue
 				}
 				if w.locked && o.locked {
+					continue
+				}
+				if w.atomic && o.atomic {
 					continue
 				}
 				if spawnedOnlyAfter(w, o) {
